@@ -1,0 +1,34 @@
+//go:build verif
+
+package limit
+
+import "time"
+
+// VerifItem is one heap slot of a Bucket as seen by the verification harness.
+type VerifItem[V comparable] struct {
+	Value    V
+	Priority time.Time
+	Index    int
+}
+
+// VerifItems returns the bucket's heap array in slot order (value, priority and the item's index field).
+func (b *Bucket[V]) VerifItems() []VerifItem[V] {
+	b.mtx.Lock()
+	defer b.mtx.Unlock()
+	out := make([]VerifItem[V], 0, len(b.items))
+	for _, it := range b.items {
+		out = append(out, VerifItem[V]{Value: it.value, Priority: it.priority, Index: it.index})
+	}
+	return out
+}
+
+// VerifIndexKeys returns the keys of the bucket's index map (unordered) and, per key, the slot its item claims.
+func (b *Bucket[V]) VerifIndexKeys() map[V]int {
+	b.mtx.Lock()
+	defer b.mtx.Unlock()
+	out := make(map[V]int, len(b.index))
+	for k, it := range b.index {
+		out[k] = it.index
+	}
+	return out
+}
